@@ -27,19 +27,19 @@ Definition race_script : list gevent :=
     (2, Pass1); (2, Visit 3); (2, Visit 4); (2, Pass2);
     (2, m_resp 3 [2;3;4]); (2, m_resp 4 [2;3;4]); (2, TakeResponse); (2, TakeResponse) ].
 
-Definition race_run (fx : bool) := grun T [1;2;3;4] 3 fx false (ginit) race_script.
+Definition race_run (fx : bool) := grun T [1;2;3;4] 3 fx false false (ginit) race_script.
 
 Lemma agree_tree_refuted :
-  run_ok T [1;2;3;4] 3 false false [1;2] ginit race_script = true /\
+  run_ok T [1;2;3;4] 3 false false false [1;2] ginit race_script = true /\
   conts_of (race_run false) 1 = [[1;2;3]] /\ conts_of (race_run false) 2 = [[2;3;4]] /\ In 2 [1;2;3].
 Proof. vm_compute. repeat split; auto. Qed.
 
 Lemma agree_tree_refuted_reachable :
-  reachable T [1;2;3;4] 3 false false (honestL [1;2]) (race_run false) /\
+  reachable T [1;2;3;4] 3 false false false (honestL [1;2]) (race_run false) /\
   In (1, Continue [1;2;3]) (emitted (race_run false)) /\ In (2, Continue [2;3;4]) (emitted (race_run false)).
 Proof.
   split.
-  - unfold race_run. apply (run_ok_reachable T [1;2;3;4] 3 false false [1;2] race_script ginit); [apply reach_init|].
+  - unfold race_run. apply (run_ok_reachable T [1;2;3;4] 3 false false false [1;2] race_script ginit); [apply reach_init|].
     vm_compute. reflexivity.
   - split; [apply (proj1 (in_gconts 1 (emitted (race_run false)) [1;2;3]))|apply (proj1 (in_gconts 2 (emitted (race_run false)) [2;3;4]))];
       vm_compute; auto.
@@ -47,28 +47,28 @@ Qed.
 
 (* (b) repaired: the own view is built from the keys of the same pass, [1;3], which differs from [1;2;3] *)
 Lemma agree_fixed_same_script :
-  run_ok T [1;2;3;4] 3 true false [1;2] ginit race_script = true /\
+  run_ok T [1;2;3;4] 3 true false false [1;2] ginit race_script = true /\
   conts_of (race_run true) 1 = [] /\ conts_of (race_run true) 2 = [[2;3;4]].
 Proof. vm_compute. repeat split; auto. Qed.
 
 (* ---- (a') a member that expects only itself -------------------------------------------------------- *)
 Definition solo_script : list event := [Tick; Pass1; Pass2; Tick; Pass1; Pass2].
-Definition solo_cfg (fs : bool) := mkCfg 5 T [5;6] 1 true fs.
+Definition solo_cfg (fs : bool) := mkCfg 5 T [5;6] 1 true fs true.
 
 Lemma solo_tree_stuck : ph (fst (lrun (solo_cfg false) state0 solo_script)) = Collect.
 Proof. reflexivity. Qed.
 
-Lemma solo_fixed_continues h t mem fx :
-  lrun (mkCfg h t mem 1 fx true) state0 [Pass1; Pass2] =
-  (mkSt [] [] [] None (Done [h]), [Bcast MQuery [h]; Continue [h]]).
-Proof. destruct fx; reflexivity. Qed.
+Lemma solo_fixed_continues h t mem fx fq :
+  lrun (mkCfg h t mem 1 fx true fq) state0 [Pass1; Pass2] =
+  (mkSt [] [] [] [] [] [] false None (Done [h]), [Bcast MQuery [h]; Continue [h]]).
+Proof. destruct fx, fq; reflexivity. Qed.
 
 (* expected count 0: upstream invoked the continuation with an empty list; repaired: "too many members" *)
 Lemma zero_tree_continues_empty :
-  snd (lrun (mkCfg 5 T [5;6] 0 true false) state0 [Pass1; Pass2]) = [Bcast MQuery []; Continue []].
+  snd (lrun (mkCfg 5 T [5;6] 0 true false true) state0 [Pass1; Pass2]) = [Bcast MQuery []; Continue []].
 Proof. reflexivity. Qed.
 Lemma zero_fixed_errors :
-  snd (lrun (mkCfg 5 T [5;6] 0 true true) state0 [Pass1; Pass2]) = [Return_err].
+  snd (lrun (mkCfg 5 T [5;6] 0 true true true) state0 [Pass1; Pass2]) = [Return_err ETooMany].
 Proof. reflexivity. Qed.
 
 (* ---- "otherwise it returns an error" cannot be read as "more than expected members => everybody fails":
@@ -79,12 +79,12 @@ Definition many_script : list gevent :=
     (1, Tick); (2, Tick); (1, m_ann 2 [1;2]); (2, m_ann 1 [1;2]);
     (1, Pass1); (1, Visit 2); (1, Pass2); (2, Pass1); (2, Visit 1); (2, Pass2);
     (2, Handle 1 (MQuery, (T, 1), [1;2])); (1, Handle 2 (MQuery, (T, 2), [1;2]));
-    (1, m_resp 2 [1;2]); (2, m_resp 1 [1;2]); (1, TakeResponse); (2, TakeResponse);
+    (1, m_resp 2 [1;2]); (2, m_resp 1 [1;2]); (1, TakeResponse); (2, TakeResponse); (1, TakeQuery); (2, TakeQuery);
     (3, Tick); (3, m_ann 1 [1;2]); (3, m_ann 2 [1;2]); (3, Pass1); (3, Visit 1); (3, Visit 2); (3, Pass2); (3, CtxDone) ].
-Definition many_run := grun T [1;2;3] 2 true true ginit many_script.
+Definition many_run := grun T [1;2;3] 2 true true true ginit many_script.
 
 Lemma too_many_some_continue :
-  run_ok T [1;2;3] 2 true true [1;2;3] ginit many_script = true /\
+  run_ok T [1;2;3] 2 true true true [1;2;3] ginit many_script = true /\
   conts_of many_run 1 = [[1;2]] /\ conts_of many_run 2 = [[1;2]] /\
   conts_of many_run 3 = [] /\ errs_of many_run 3 = 1%nat.
 Proof. vm_compute. repeat split; auto. Qed.
@@ -107,20 +107,187 @@ Definition ok_script : list gevent :=
     (0, m_resp 256 V3); (0, m_resp 65535 V3); (256, m_resp 0 V3); (256, m_resp 65535 V3);
     (65535, m_resp 0 V3); (65535, m_resp 256 V3);
     (0, TakeResponse); (0, TakeResponse); (256, TakeResponse); (256, TakeResponse);
-    (65535, TakeResponse); (65535, TakeResponse) ].
+    (65535, TakeResponse); (65535, TakeResponse);
+    (0, TakeQuery); (0, TakeQuery); (256, TakeQuery); (256, TakeQuery); (65535, TakeQuery); (65535, TakeQuery) ].
 Definition H3 : list N := [0; 256; 65535].
 Definition M3 : list N := [0; 7; 256; 65535].
-Definition ok_run := grun T M3 3 true true ginit ok_script.
+Definition ok_run := grun T M3 3 true true true ginit ok_script.
 
 Lemma three_honest_complete :
-  reachable T M3 3 true true (honestL H3) ok_run /\
+  reachable T M3 3 true true true (honestL H3) ok_run /\
   In (0, Continue V3) (emitted ok_run) /\ In (256, Continue V3) (emitted ok_run) /\
   In (65535, Continue V3) (emitted ok_run).
 Proof.
   split.
-  - unfold ok_run. apply (run_ok_reachable T M3 3 true true H3 ok_script ginit); [apply reach_init|].
+  - unfold ok_run. apply (run_ok_reachable T M3 3 true true true H3 ok_script ginit); [apply reach_init|].
     vm_compute. reflexivity.
   - split; [apply (proj1 (in_gconts 0 (emitted ok_run) V3))|split;
       [apply (proj1 (in_gconts 256 (emitted ok_run) V3))|apply (proj1 (in_gconts 65535 (emitted ok_run) V3))]];
       vm_compute; auto.
+Qed.
+
+(* ---- (d) teardown: the orchestrator stops serving the topic as soon as Synchronize has returned --------------
+   Members 1 and 2, expected 2.  2 announces [1;2] and that reaches 1, whose own announcement of [1;2] is still on its
+   way; 1 completes its first loop and queries; 2 answers (HandleMessage answers in any phase, and the query carries
+   the list, so 2 can now finish its first loop too).  Upstream (fix_queries = false) 1 is through as soon as 2's
+   acknowledgement is in: continuation, return, Stop.  Now 2 queries -- and nobody answers. *)
+Definition m_query (from : N) (v : view) : event := Handle from (MQuery, (T, from), v).
+Definition td_script : list gevent :=
+  [ (1, Tick); (2, Tick); (1, m_ann 2 [2]); (2, m_ann 1 [1]);
+    (1, Tick); (2, Tick); (1, m_ann 2 [1;2]);
+    (1, Pass1); (1, Visit 2); (1, Pass2);
+    (2, m_query 1 [1;2]);                 (* 2 stores [1;2] for 1 and acknowledges *)
+    (1, m_resp 2 [1;2]); (1, TakeResponse);
+    (1, Stop);                            (* has an effect only if 1 is through *)
+    (2, Pass1); (2, Visit 1); (2, Pass2); (* 2 finishes its first loop and queries *)
+    (1, m_query 2 [1;2]) ].               (* ... a member that is no longer served *)
+Definition td_run (fq : bool) := grun T [1;2] 2 true true fq ginit td_script.
+
+Lemma teardown_tree_witness :
+  run_ok T [1;2] 2 true true false [1;2] ginit td_script = true /\
+  conts_of (td_run false) 1 = [[1;2]] /\ stopped (g (td_run false) 1) = true /\
+  ph (g (td_run false) 2) = Query [1;2] 1 0 /\ chan (g (td_run false) 2) = [] /\
+  (forall v, ~ In (1, SendTo 2 MResp v) (emitted (td_run false))) /\
+  snd (step (cfgOf T [1;2] 2 true true false 2) (g (td_run false) 2) CtxDone) = [Return_err EAcks].
+Proof.
+  vm_compute. repeat split; auto.
+  intros v H. repeat (destruct H as [H|H]; [discriminate|]). exact H.
+Qed.
+
+(* repaired: after the acknowledgement 1 still waits for 2's query, Stop does nothing, the query is answered, and
+   both complete *)
+Definition td_rest : list gevent :=
+  [ (1, TakeQuery); (1, Stop); (2, m_resp 1 [1;2]); (2, TakeResponse); (2, TakeQuery); (2, Stop) ].
+Lemma teardown_fixed_same_script :
+  run_ok T [1;2] 2 true true true [1;2] ginit (td_script ++ td_rest) = true /\
+  conts_of (td_run true) 1 = [] /\ ph (g (td_run true) 1) = Query [1;2] 0 1 /\ stopped (g (td_run true) 1) = false /\
+  conts_of (grun T [1;2] 2 true true true ginit (td_script ++ td_rest)) 1 = [[1;2]] /\
+  conts_of (grun T [1;2] 2 true true true ginit (td_script ++ td_rest)) 2 = [[1;2]].
+Proof. vm_compute. repeat split; auto. Qed.
+
+(* three members, each torn down immediately after its continuation, in an order in which the fast ones stop while
+   the slow one is still in its first loop: all complete (repaired variant) *)
+Definition td3_script : list gevent :=
+  [ (1, Tick); (2, Tick); (3, Tick);
+    (1, m_ann 2 [2]); (1, m_ann 3 [3]); (2, m_ann 1 [1]); (2, m_ann 3 [3]); (3, m_ann 1 [1]); (3, m_ann 2 [2]);
+    (1, Tick); (2, Tick); (3, Tick);
+    (1, m_ann 2 [1;2;3]); (1, m_ann 3 [1;2;3]); (2, m_ann 1 [1;2;3]); (2, m_ann 3 [1;2;3]);
+    (1, Pass1); (1, Visit 2); (1, Visit 3); (1, Pass2);
+    (2, Pass1); (2, Visit 1); (2, Visit 3); (2, Pass2);
+    (2, m_query 1 [1;2;3]); (3, m_query 1 [1;2;3]); (1, m_query 2 [1;2;3]); (3, m_query 2 [1;2;3]);
+    (1, m_resp 2 [1;2;3]); (1, m_resp 3 [1;2;3]); (2, m_resp 1 [1;2;3]); (2, m_resp 3 [1;2;3]);
+    (1, TakeResponse); (1, TakeResponse); (1, TakeQuery); (1, Stop);   (* 1 has both acknowledgements, but only 2's query *)
+    (2, TakeResponse); (2, TakeResponse); (2, TakeQuery); (2, Stop);
+    (3, Pass1); (3, Visit 1); (3, Visit 2); (3, Pass2);               (* the slow member finishes its first loop *)
+    (1, m_query 3 [1;2;3]); (2, m_query 3 [1;2;3]);
+    (1, TakeQuery); (1, Stop); (2, TakeQuery); (2, Stop);             (* now they are through, and stop *)
+    (3, m_resp 1 [1;2;3]); (3, m_resp 2 [1;2;3]);
+    (3, TakeResponse); (3, TakeResponse); (3, TakeQuery); (3, TakeQuery); (3, Stop) ].
+Definition td3_run := grun T [1;2;3] 3 true true true ginit td3_script.
+Lemma teardown_three_complete :
+  run_ok T [1;2;3] 3 true true true [1;2;3] ginit td3_script = true /\
+  conts_of td3_run 1 = [[1;2;3]] /\ conts_of td3_run 2 = [[1;2;3]] /\ conts_of td3_run 3 = [[1;2;3]] /\
+  stopped (g td3_run 1) = true /\ stopped (g td3_run 2) = true /\ stopped (g td3_run 3) = true.
+Proof. vm_compute. repeat split; auto. Qed.
+
+(* ... and no continuation of that run lets 2 complete: whatever happens after the witness -- any admissible events,
+   any deliveries -- member 2 never invokes its continuation; it can only end through its deadline. *)
+Notation ext_td := (extends T [1;2] 2 true true false (honestL [1;2])).
+Notation reach_td := (reachable T [1;2] 2 true true false (honestL [1;2])).
+Notation cfg_td := (cfgOf T [1;2] 2 true true false).
+
+Definition td_inv (S : gstate) : Prop :=
+  reach_td S /\ stopped (g S 1) = true /\ (forall v, ~ In (1, SendTo 2 MResp v) (emitted S)) /\
+  chan (g S 2) = [] /\ qchan (g S 2) = [] /\
+  (ph (g S 2) = Query [1;2] 1 0 \/ ph (g S 2) = Failed) /\ gconts 2 (emitted S) = [].
+
+Lemma td_inv_init : td_inv (td_run false).
+Proof.
+  destruct teardown_tree_witness as (Hok & _ & Hst & Hph & Hch & Hns & _).
+  split. { unfold td_run. apply (run_ok_reachable T [1;2] 2 true true false [1;2] td_script ginit); [apply reach_init|exact Hok]. }
+  split; [exact Hst|]. split; [exact Hns|]. split; [exact Hch|].
+  split; [vm_compute; reflexivity|]. split; [left; exact Hph|vm_compute; reflexivity].
+Qed.
+
+Lemma td_inv_step S ge : td_inv S -> admissible T [1;2] 2 true true false (honestL [1;2]) S ge -> td_inv (gstep T [1;2] 2 true true false S ge).
+Proof.
+  intros (HR & Hst & Hns & Hch & Hqc & Hph & Hco) Hadm.
+  assert (HR' : reach_td (gstep T [1;2] 2 true true false S ge)) by (apply reach_step; assumption).
+  split; [exact HR'|]. pose proof (reachable_Inv _ _ _ _ _ _ _ _ HR) as HI.
+  destruct ge as [x ev]. destruct Hadm as [Hx Hauth].
+  assert (Hx12 : x = 1 \/ x = 2) by (destruct Hx as [<-|[<-|[]]]; auto).
+  unfold gstep. destruct (step (cfg_td x) (g S x) ev) as [st' o] eqn:Hs. simpl.
+  destruct Hx12 as [-> | ->].
+  - (* the stopped member: nothing happens *)
+    assert (H1 : honestL [1;2] 1) by (left; reflexivity).
+    rewrite (step_stopped _ _ ev Hst (I_stop _ _ _ _ _ _ _ _ HI 1 H1 Hst)) in Hs. inversion Hs; subst st' o.
+    simpl. rewrite app_nil_r. destruct (N.eq_dec 1 1); [|congruence]. destruct (N.eq_dec 2 1); [discriminate|].
+    repeat split; assumption.
+  - destruct (N.eq_dec 1 2); [discriminate|]. destruct (N.eq_dec 2 2); [|congruence].
+    split; [exact Hst|].
+    split. { intros v Hin. apply in_emitted_step in Hin. destruct Hin as [Hin|[E _]]; [eapply Hns; eauto|discriminate]. }
+    rewrite gconts_app, Hco, N.eqb_refl. simpl.
+    (* the responses channel stays empty: a response accepted as coming from 1 would have to be one 1 sent *)
+    assert (Hch' : chan st' = []).
+    { destruct (step_chan _ _ _ _ _ Hs) as [E|[(from & tg & v & Hev & Hacc)|(_ & r & E)]]; [congruence| |congruence].
+      exfalso. subst ev. destruct tg as [t id]. pose proof Hacc as Hacc'. apply accepts_spec in Hacc'. simpl in Hacc'.
+      destruct Hacc' as (_ & _ & Hne & Hm). assert (from = 1) by (destruct Hm as [<-|[<-|[]]]; congruence). subst from.
+      assert (H1 : honestL [1;2] 1) by (left; reflexivity).
+      specialize (Hauth H1 Hacc). simpl in Hauth. destruct Hauth as [Hb|Hb].
+      - destruct (I_bc _ _ _ _ _ _ _ _ HI 1 MResp v H1 Hb) as [Hty _]. congruence.
+      - eapply Hns; eauto. }
+    assert (Hqc' : qchan st' = []).
+    { destruct (step_q _ _ _ _ _ Hs) as [_ Q2 _ _|p l Hf|L a q p l rest _ _ Q _ _ _]; [congruence|discriminate|congruence]. }
+    split; [exact Hch'|]. split; [exact Hqc'|].
+    destruct (step_phase _ _ _ _ _ Hs) as [Hsame Hc0 _|L a q Hc|L Hc|L a q a' q' _ Hev _ _ _|L a q _ Hev _ _ _|_ _ Hf Hc0 _].
+    + rewrite Hsame, Hc0. auto.
+    + destruct Hph; congruence.
+    + destruct Hph; congruence.
+    + destruct Hev as [-> | ->]; [rewrite (step_take_empty _ _ Hch) in Hs|rewrite (step_takeq_empty _ _ Hqc) in Hs];
+        inversion Hs; subst; auto.
+    + destruct Hev as [-> | ->]; [rewrite (step_take_empty _ _ Hch) in Hs|rewrite (step_takeq_empty _ _ Hqc) in Hs];
+        inversion Hs; subst; auto.
+    + rewrite Hf, Hc0. auto.
+Qed.
+
+Theorem teardown_tree_refuted S' : ext_td (td_run false) S' -> conts_of S' 2 = [].
+Proof.
+  intros Hext. assert (H : td_inv S'); [|apply H].
+  induction Hext as [|S' ge _ IH Hadm]; [apply td_inv_init|apply td_inv_step; assumption].
+Qed.
+
+Lemma teardown_tree_refuted_all :
+  run_ok T [1;2] 2 true true false [1;2] ginit td_script = true /\
+  conts_of (td_run false) 1 = [[1;2]] /\ stopped (g (td_run false) 1) = true /\
+  ph (g (td_run false) 2) = Query [1;2] 1 0 /\
+  snd (step (cfgOf T [1;2] 2 true true false 2) (g (td_run false) 2) CtxDone) = [Return_err EAcks] /\
+  forall S', ext_td (td_run false) S' -> conts_of S' 2 = [].
+Proof.
+  destruct teardown_tree_witness as (A & B & C & D & _ & _ & E).
+  exact (conj A (conj B (conj C (conj D (conj E teardown_tree_refuted))))).
+Qed.
+
+(* ---- teardown safety needs the run to be honest: queries, like acknowledgements, are counted from ANY configured
+   peer.  Configured {1,2,3,4}, expected 3, honest 1, 2, 3, Byzantine 4: 4 queries and acknowledges [1;2;3] at 1, so
+   1 is through (and torn down) with the queries of 2 and 4, while honest 3 -- a member of its list -- has not even
+   finished its first loop and will never get an acknowledgement from 1. *)
+Definition tdb_script : list gevent :=
+  [ (1, Tick); (2, Tick); (3, Tick);
+    (1, m_ann 2 [2]); (1, m_ann 3 [3]); (2, m_ann 1 [1]); (2, m_ann 3 [3]); (3, m_ann 1 [1]); (3, m_ann 2 [2]);
+    (1, Tick); (2, Tick); (3, Tick);
+    (1, m_ann 2 [1;2;3]); (1, m_ann 3 [1;2;3]); (2, m_ann 1 [1;2;3]); (2, m_ann 3 [1;2;3]);
+    (1, Pass1); (1, Visit 2); (1, Visit 3); (1, Pass2);
+    (2, m_query 1 [1;2;3]);
+    (2, Pass1); (2, Visit 1); (2, Visit 3); (2, Pass2);
+    (1, m_query 2 [1;2;3]); (1, m_resp 2 [1;2;3]);
+    (1, m_query 4 [1;2;3]); (1, m_resp 4 [1;2;3]);          (* the Byzantine member *)
+    (1, TakeResponse); (1, TakeResponse); (1, TakeQuery); (1, TakeQuery); (1, Stop) ].
+Definition tdb_run := grun T [1;2;3;4] 3 true true true ginit tdb_script.
+Lemma teardown_byzantine_witness :
+  run_ok T [1;2;3;4] 3 true true true [1;2;3] ginit tdb_script = true /\
+  conts_of tdb_run 1 = [[1;2;3]] /\ stopped (g tdb_run 1) = true /\ ph (g tdb_run 3) = Collect /\
+  (forall v, ~ In (1, SendTo 3 MResp v) (emitted tdb_run)).
+Proof.
+  vm_compute. repeat split; auto.
+  intros v H. repeat (destruct H as [H|H]; [discriminate|]). exact H.
 Qed.
